@@ -29,13 +29,14 @@ ASSUMPTIONS = [
 OUTSIDE = ["arbitrary (pattern, replacement, source) triples beyond the enumerated shapes", "the CLI `replace` command"]
 
 COUNT_SOURCES = {
+    "none-fstrings": 'x = 1\nz = f"a{x}"\ny = (f"a"\nf"{x}")\ns = "b" \'c\'\nt = "bc"\n',
     "three": "x = 1\ny = 2\nx = 1\nif q:\n    x = 1\n",
     "none": "y = 2\nz = 3\n",
     "nested": "f(f(f(1)))\nf(2)\n",
     "adjacent": "x = 1; x = 1; x = 1\nx = 1\nx = 1\n",
     "one": "a = 0\nx = 1\n",
 }
-COUNT_PATTERNS = {"three": ("x = 1", "x = 99"), "none": ("x = 1", "x = 99"), "nested": ("f({{a}})", "g({{a}})"),
+COUNT_PATTERNS = {"none-fstrings": ("nomatch_zz", "q"), "three": ("x = 1", "x = 99"), "none": ("x = 1", "x = 99"), "nested": ("f({{a}})", "g({{a}})"),
                   "adjacent": ("x = 1", "x = 99"), "one": ("x = 1", "x = 99")}
 
 SUB_SOURCES = [
@@ -49,6 +50,10 @@ SUB_SOURCES = [
     # statement sequences whose replacement differs from the match by indentation only
     "if c:\n    x = 7000\ny = 7001\nz = 7000\n", "def f(c):\n    if c:\n        x = 7000\n        y = 7001\n    return 7000\n",
     "while c:\n    c = 7000\nc = 7001\n", "if c:\n    x = 7000\n    y = 7001\nz = 7000\n",
+    # f-strings whose literal fragments are themselves valid expressions (item, px, x1) next to calls that the
+    # replacement fills with string constants of the same value
+    "u = f(7000 + 7001, 7000 - 1)\nv = f(-7000, 7001 if c else 7000)\nw = f(lambda: 7000, not c)\n",
+    "label = f\"item{count}\"\nkind = f(count, 7000)\n", "w = f'{n}px'\nu = f(n, 7001)\nv = f\"x1{n}y2\"\n",
     "def f(c):\n    for i in c:\n        if i:\n            x = 7000\n            y = 7001\n        z = 7000\n    return 7001\n",
 ]
 SUB_PATTERNS = [
@@ -60,6 +65,9 @@ SUB_PATTERNS = [
     ("f({{a}}, {{b}})", "g({{b}}, {{a}})"), ("f({{a}}, 7000)", "f({{a}}, 7000)"), ("{{t}} = f({{a}}, {{b}})", "{{t}} = f({{a}}, {{b}})"),
     ("if {{c}}:\n    {{a}}\n{{b}}", "if {{c}}:\n    {{a}}\n    {{b}}"), ("if {{c}}:\n    {{a}}\n    {{b}}", "if {{c}}:\n    {{a}}\n{{b}}"),
     ("while {{c}}:\n    {{a}}\n{{b}}", "while {{c}}:\n    {{a}}\n    {{b}}"), ("if {{c}}:\n    {{a}}\n    {{b}}", "if {{c}}:\n    {{b}}\n    {{a}}"),
+    ("f({{a}}, {{b}})", "{{a}} * {{b}}"), ("f({{a}}, {{b}})", "-{{a}} ** {{b}}"), ("f({{a}}, {{b}})", "{{a}}.real + {{b}}[0]"),
+    ("f({{a}}, {{b}})", "{{b}} if {{a}} else not {{b}}"), ("{{a}} + {{b}}", "{{a}} * {{b}}"), ("{{a}} - {{b}}", "{{b}} - {{a}}"),
+    ("f({{a}}, {{b}})", "['item', 'px', 'x1', {{a}}]"), ("f({{a}}, {{b}})", "g('y2', \"item\", {{b}})"),
 ]
 
 
@@ -177,6 +185,8 @@ def ob_sub(pattern, repl, source):
                         if name == "root":
                             continue
                         seg = node if isinstance(node, str) else _segment(source, node)
+                        if isinstance(node, ast.expr) and not isinstance(node, ast.Starred):
+                            seg = "(" + seg + ")"  # tree-level substitution: the bound expression stays one operand
                         inst = inst.replace("{{" + name + "}}", seg)
                     if "{{" in inst:
                         exp = None
@@ -376,7 +386,10 @@ def replay(case):
                 g = m.groups._asdict() if hasattr(m.groups, "_asdict") else {}
                 for name, node in g.items():
                     if name != "root":
-                        inst = inst.replace("{{" + name + "}}", node if isinstance(node, str) else _segment(src, node))
+                        seg = node if isinstance(node, str) else _segment(src, node)
+                        if isinstance(node, ast.expr) and not isinstance(node, ast.Starred):
+                            seg = "(" + seg + ")"
+                        inst = inst.replace("{{" + name + "}}", seg)
                 if "{{" in inst:
                     exp = None
                     break
